@@ -8,8 +8,9 @@ ID = "C08"
 LEAN_MODULES = ["CatiiProps.C08"]
 RULE = ("exhaustive: all ordered pairs of subsets of a small universe containing 0 and 2^32-1 (6 elements quick, 8 "
         "thorough) for the three kernels, x {array, None} for the three wrappers; all lists of <=3 arrays drawn from "
-        "subsets of a 4-universe (+ random longer lists) for the k-way union; random long pairs over ten overlap "
-        "patterns. Non-trivial = both operands non-empty arrays (or >=2 non-empty arrays for k-way); distinct by input")
+        "subsets of a 4-universe (+ random longer lists) for the k-way union; random long pairs over eleven overlap "
+        "patterns (incl. skewed lengths 1-4 vs 65-5000), half of them passed as views into longer buffers whose "
+        "neighbouring words are row ids of the other operand. Non-trivial = both operands non-empty arrays (or >=2 non-empty arrays for k-way); distinct by input")
 ASSUMPTIONS = ["arrays of fewer than 2^31 elements (the kernels use C int pointers; documented in the source)"]
 
 FN2 = ["inter", "union", "diff"]
@@ -20,11 +21,21 @@ def u32(xs):
     return np.array(xs, dtype=np.uint32)
 
 
-def run_impl(so, fn, a, b):
+def embedded(xs, other):
+    """xs as a view into a longer buffer whose neighbouring words are values of the other operand: a kernel that reads one
+    element before or past an operand then sees a plausible row id and the set-algebra oracle notices"""
+    other = list(other or [])
+    pre = max([v for v in other if xs and v < xs[0]], default=0)
+    post = min([v for v in other if xs and v > xs[-1]], default=G.U32)
+    buf = u32([pre] + list(xs) + [post, post])
+    return buf[1:1 + len(xs)]
+
+
+def run_impl(so, fn, a, b, embed=False):
     """returns ('ok', list | None) or ('raise', name); also dtype/sortedness facts"""
     try:
-        A = None if a is None else u32(a)
-        B = None if b is None else u32(b)
+        A = None if a is None else (embedded(a, b) if embed else u32(a))
+        B = None if b is None else (embedded(b, a) if embed else u32(b))
         f = {"inter": so.set_intersect_merge_np, "union": so.set_union_merge_np, "diff": so.set_difference_merge_np,
              "intersection": so.intersection, "union_w": so.union, "difference": so.difference}[fn]
         r = f(A, B)
@@ -56,8 +67,10 @@ def expect(fn, a, b):
     return r
 
 
-def check_one(ctx, so, fn, a, b, reqs, pend):
-    got = run_impl(so, fn, a, b)
+def check_one(ctx, so, fn, a, b, reqs, pend, embed=False):
+    got = run_impl(so, fn, a, b, embed)
+    if embed:
+        ctx.hit("operands_as_views")
     case = {"fn": fn, "l": a, "r": b}
     nontriv = bool(a) and bool(b)
     ctx.case(case if len(str(case)) < 400 else {"fn": fn, "len_l": len(a or []), "len_r": len(b or [])}, nontrivial=nontriv)
@@ -134,8 +147,9 @@ def run(ctx):
     for _ in range(ctx.n(400)):
         kind, a, b = G.random_pair(ctx.rng, maxlen=ctx.rng.choice([8, 60, 400]))
         ctx.hit("pattern:" + kind)
+        emb = ctx.rng.random() < 0.5
         for fn in FN2 + WR:
-            check_one(ctx, so, fn, a, b, reqs, pend)
+            check_one(ctx, so, fn, a, b, reqs, pend, embed=emb)
     if ctx.oracle_only:
         return
     ans = ctx.model.run(reqs)
